@@ -325,7 +325,16 @@ def c13_pburg(ctx, case):
     kw = [{}, {"sampling": 1000.0}, {"sampling": 0.25, "NFFT": 2 * N + 1}, {"sampling": 44100.0, "scale_by_freq": True},
           {"NFFT": max(p + 1, N // 2)}, {"NFFT": "nextpow2"}][(p + 3 * N) % 6]
     ctx.cls("pburg kwargs: %s" % ",".join(sorted(kw)) if kw else "pburg kwargs: none")
-    obj = spectrum.pburg(arg, p, criteria=c, **kw) if c else spectrum.pburg(arg, p, **kw)
+    # one object in three is first evaluated at another order and then re-used (ar_order assigned): the model it exposes
+    # must be the one of the order it now holds
+    p0 = p + {0: -1, 1: 1}.get((p + N) % 6, 0)
+    if p0 != p and 1 <= p0 <= N - 2 and not (c in ("AICc", "AKICc") and p0 > N - 3):
+        obj = spectrum.pburg(arg, p0, criteria=c, **kw) if c else spectrum.pburg(arg, p0, **kw)
+        obj()
+        obj.ar_order = p
+        ctx.cls("re-used object")
+    else:
+        obj = spectrum.pburg(arg, p, criteria=c, **kw) if c else spectrum.pburg(arg, p, **kw)
     obj()
     ctx.check(len(obj.ar) == len(a) and len(obj.reflection) == len(k), "pburg order %d/%d vs arburg %d/%d"
               % (len(obj.ar), len(obj.reflection), len(a), len(k)))
